@@ -306,7 +306,7 @@ def main(argv):
             any_new = True
             fr.diffs = new_diffs
             oracle = P.ORACLE_KINDS.get(fr.family, P.ORACLE_KINDS["*"])
-            pats = [re.compile(x) for x in getattr(P, "ORACLE_PATTERNS", {}).get(fr.family, [])]
+            pats = [re.compile(x) for x in getattr(P, "ORACLE_PATTERNS", {}).get(fr.family, []) + getattr(P, "ORACLE_PATTERNS", {}).get("*", [])]
             def is_or(d):
                 m = re.search(r"kind=(\S+)", d)
                 return (m is not None and m.group(1) in oracle) or any(px.search(d) for px in pats)
